@@ -84,8 +84,12 @@ def sys_case(ctx, j, tier):
         sym = ch.symbol
         cand = sorted([x for x in ch.contracts if pydt(x.last_trading_date) > now], key=lambda x: pydt(x.last_trading_date))
         want = cand[month]
-        ctx.check("C11:lead-resolution", c1 is want and c2 is want and sym == want.symbol,
-                  cls=cls.__name__, offset=month, now=now, got=[c1.symbol, c2.symbol, sym], want=want.symbol)
+        # (asking with the optional extra shift spelled out as 'none' - keyword or positional - is the same question)
+        c3 = ch.lead_contract(now, month=0)
+        c4 = ch.lead_contract(now, 0)
+        c5 = ch.lead_contract(month=0)
+        ctx.check("C11:lead-resolution", c1 is want and c2 is want and sym == want.symbol and c3 is want and c4 is want and c5 is want,
+                  cls=cls.__name__, offset=month, now=now, got=[c1.symbol, c2.symbol, sym, c3.symbol, c4.symbol, c5.symbol], want=want.symbol)
         ctx.check("C11:never-past-last-trading", pydt(c1.last_trading_date) > now, now=now, lead=c1.symbol, ltd=c1.last_trading_date)
         idx = ch.contracts.index(c1)
         ctx.check("C11:monotone", idx >= prev, now=now, idx=idx, previous=prev)
